@@ -69,9 +69,11 @@ def install_slice_contracts():
     @_guarded
     def _indices_consistent(self, length, result):
         COUNTS['Slice.indices'] += 1
-        if any(b <= a for a, b in zip(result, result[1:])):
-            _breach('Slice.indices', '%s on %d: not strictly increasing: %r' % (self, length, result[:20]))
-        if result and (result[0] < 0 or result[-1] >= length):
+        # strictly monotonic: increasing, or (a Slice with a negative step) decreasing
+        diffs = [b - a for a, b in zip(result, result[1:])]
+        if diffs and not (all(d > 0 for d in diffs) or all(d < 0 for d in diffs)):
+            _breach('Slice.indices', '%s on %d: not strictly monotonic: %r' % (self, length, result[:20]))
+        if result and (min(result) < 0 or max(result) >= length):
             _breach('Slice.indices', '%s on %d: outside range: %r' % (self, length, result[:20]))
         c = self.count(length)
         g = list(self.gen_indices(length))
